@@ -44,19 +44,30 @@ import (
 // recording doubles
 
 // c06MC records the label names/values handed to AddOrGetPrefix; the key values never reach the
-// underlying Prometheus registry (invalid UTF-8 label values are another property's business).
+// underlying Prometheus registry as they are (invalid UTF-8 label values are another property's business):
+// the registry gets them hex-encoded, so that every pipeline still has its own metrics.
 type c06MC struct {
 	promreg.MetricCreator
 	names  []string
 	values []string
+	onNew  func(prefix string, m *c06MC) // called for every sub-creator (inherited)
 }
 
 func (m *c06MC) AddOrGetPrefix(prefix string, labelNames []string, labelValues []string) promreg.MetricCreator {
-	return &c06MC{
-		MetricCreator: m.MetricCreator,
+	hexValues := make([]string, len(labelValues))
+	for i, v := range labelValues {
+		hexValues[i] = "x" + hex.EncodeToString([]byte(v))
+	}
+	sub := &c06MC{
+		MetricCreator: m.MetricCreator.AddOrGetPrefix(prefix, labelNames, hexValues),
 		names:         append(append([]string{}, m.names...), labelNames...),
 		values:        append(append([]string{}, m.values...), labelValues...),
+		onNew:         m.onNew,
 	}
+	if m.onNew != nil {
+		m.onNew(prefix, sub)
+	}
+	return sub
 }
 
 // keyLabels returns the values of the key_* labels in order
@@ -1061,8 +1072,17 @@ func c06RunMetric(c *Case) (out string, fails []Fail) {
 
 // ---------------------------------------------------------------------------------------------
 
+var c06Prof = map[int]time.Duration{}
+
 func c06Run(c *Case) (string, []Fail) {
 	c06Init()
+	if os.Getenv("C06_PROF") != "" {
+		t0 := time.Now()
+		defer func() {
+			c06Prof[c.Kind] += time.Since(t0)
+			fmt.Fprintf(os.Stderr, "PROF kind=%d total=%v this=%v len=%d\n", c.Kind, c06Prof[c.Kind], time.Since(t0), len(c.S))
+		}()
+	}
 	switch c.Kind {
 	case 1:
 		return c06RunRoute(c)
@@ -1072,6 +1092,8 @@ func c06Run(c *Case) (string, []Fail) {
 		return c06RunList(c)
 	case 4:
 		return c06RunMetric(c)
+	case 5:
+		return c06RunE2E(c)
 	}
 	return "badcase", nil
 }
